@@ -24,8 +24,75 @@ def mod (a b : Int) : PyM Int := if b = 0 then .error zeroDiv else .ok (Int.fmod
     for this call shape and the bound is recorded as an assumption of the translated function. -/
 def trueDivTrunc (a b : Int) : PyM Int := if b = 0 then .error zeroDiv else .ok (Int.tdiv a b)
 
+/-- `int(ceil(a / c))` for an int `a` and a float literal `c` whose value is the integer `b`: the ceiling of the true
+    quotient.  Exact whenever |a| < 2^53 / |b| (a non-integer quotient is then further from every integer than the rounding
+    error of the float division); the bound is recorded as an assumption of the translated function. -/
+def ceilDivFloat (a b : Int) : PyM Int := if b = 0 then .error zeroDiv else .ok (-(Int.fdiv (-a) b))
+
 /-- `a ** b` on ints with an int result (negative exponents give a float in Python: unsupported). -/
 def pow (a b : Int) : PyM Int := if b < 0 then .error (.Other "FloatResult") else .ok (a ^ b.toNat)
+
+/-- `a & b` on ints, Python's infinite two's-complement reading of negative operands (`-(n+1)` is `~n`):
+    `m & ~n = m - (m & n)`, `~m & ~n = ~(m | n)`. -/
+def bitAnd (a b : Int) : Int :=
+  match a, b with
+  | .ofNat m, .ofNat n => ((m &&& n : Nat) : Int)
+  | .ofNat m, .negSucc n => ((m - (m &&& n) : Nat) : Int)
+  | .negSucc m, .ofNat n => ((n - (n &&& m) : Nat) : Int)
+  | .negSucc m, .negSucc n => .negSucc (m ||| n)
+
+/-- `a | b` on ints (two's complement as for `bitAnd`): `m | ~n = ~(n & ~m)`, `~m | ~n = ~(m & n)`. -/
+def bitOr (a b : Int) : Int :=
+  match a, b with
+  | .ofNat m, .ofNat n => ((m ||| n : Nat) : Int)
+  | .ofNat m, .negSucc n => .negSucc (n - (n &&& m))
+  | .negSucc m, .ofNat n => .negSucc (m - (m &&& n))
+  | .negSucc m, .negSucc n => .negSucc (m &&& n)
+
+/-- `a << b`: `a * 2**b`; a negative count raises ValueError. -/
+def shl (a b : Int) : PyM Int := if b < 0 then .error .ValueError else .ok (a * 2 ^ b.toNat)
+
+/-- `a >> b`: floor of `a / 2**b` (also for negative `a`); a negative count raises ValueError. -/
+def shr (a b : Int) : PyM Int := if b < 0 then .error .ValueError else .ok (a >>> b.toNat)
+
+/-- `range(a, b, c)` as a list; `c = 0` raises ValueError. -/
+def range3 (a b c : Int) : PyM (List Int) :=
+  if c = 0 then .error .ValueError
+  else
+    let n : Int := if c > 0 then Int.fdiv (b - a + c - 1) c else Int.fdiv (a - b + (-c) - 1) (-c)
+    .ok ((List.range n.toNat).map (fun (k : Nat) => a + (k : Int) * c))
+
+/-- storing `x` in a protobuf `uint32` field (`Msg(field=x)`): ValueError outside `0 .. 2^32 - 1`; stands for `x`. -/
+def uint32Field (x : Int) : PyM Int := if x < 0 ∨ x ≥ 2 ^ 32 then .error .ValueError else .ok x
+
+/-- `buf[i]` on a `bytes` / `bytearray`: an int in `range(256)` -/
+def byteAt (buf : Bytes) (i : Int) : PyM Int := (pyIndex buf i).map (fun x => (x.toNat : Int))
+
+/-- `k in d` on a `dict` kept as its items in insertion order -/
+def dictContains {β} (d : List (Text × β)) (k : Text) : Bool := d.any (fun e => e.1 = k)
+
+/-- `d[k]`: KeyError for a missing key -/
+def dictGet {β} (d : List (Text × β)) (k : Text) : PyM β :=
+  match d.find? (fun e => e.1 = k) with
+  | some e => .ok e.2
+  | none => .error .KeyError
+
+/-- `d[k] = v`: an existing key keeps its place, a new one goes to the end -/
+def dictSet {β} : List (Text × β) → Text → β → List (Text × β)
+  | [], k, v => [(k, v)]
+  | (k', v') :: rest, k, v => if k' = k then (k', v) :: rest else (k', v') :: dictSet rest k v
+
+/-- `bytearray(n)`: `n` zero bytes; a negative count raises ValueError. -/
+def bytearrayZeros (n : Int) : PyM Bytes := if n < 0 then .error .ValueError else .ok (List.replicate n.toNat 0)
+
+/-- `buf[i] = v` on a `bytearray`: IndexError outside the buffer (negative indices wrap once), ValueError unless
+    `v` is in `range(256)`. -/
+def setByte (buf : Bytes) (i : Int) (v : Int) : PyM Bytes :=
+  let n : Int := buf.length
+  let j := if i < 0 then i + n else i
+  if j < 0 ∨ j ≥ n then .error .IndexError
+  else if v < 0 ∨ v > 255 then .error .ValueError
+  else .ok (buf.set j.toNat (UInt8.ofNat v.toNat))
 
 /-- `chr(n)`; lone surrogates are not representable as a Lean `Char`. -/
 def chr (n : Int) : PyM Text :=
@@ -106,6 +173,25 @@ def intOfBase (s : Text) (b : Nat) : PyM Int :=
 
 /-- `str.upper()` restricted to ASCII letters (digits of `hex()` output). -/
 def upperAscii (s : Text) : Text := s.map (fun c => if 'a' ≤ c ∧ c ≤ 'z' then Char.ofNat (c.toNat - 32) else c)
+
+/-- `s.isalpha()`: not empty and every character alphabetic (`isAlpha` is `str.isalpha` of one character). -/
+def strIsAlpha (isAlpha : Char → Bool) (s : Text) : Bool := !s.isEmpty && s.all isAlpha
+
+/-- a `float` that holds a duration of a whole number of milliseconds (the double nearest to `ms / 1000` seconds), carried
+    as that number.  Only the operations below are translated for it; each is exact on such doubles: comparison with an int
+    (rounding to nearest is monotone and ints are representable), `math.floor(x) != x` (decided by `ms % 1000`), and `x % c`
+    for an int `c` (`fmod` is exact; reached in the translated code only for whole seconds). -/
+structure Millis where
+  ms : Int
+  deriving DecidableEq, Repr
+
+/-- an `int` number of seconds compared with / used beside a `Millis` -/
+def Millis.ofInt (c : Int) : Millis := ⟨1000 * c⟩
+/-- `math.floor(x)` -/
+def Millis.floor (x : Millis) : Millis := ⟨1000 * Int.fdiv x.ms 1000⟩
+/-- `x % c` for an int `c` (sign of the divisor) -/
+def Millis.mod (x : Millis) (c : Int) : PyM Millis :=
+  if c = 0 then .error zeroDiv else .ok ⟨Int.fmod x.ms (1000 * c)⟩
 
 /-- a sheet / table as `ItemsList` sees it: identity + current name -/
 structure Item where
